@@ -91,7 +91,23 @@ def run(oc, tier, seed, model_available, escalate):
             lay = es_.layout(P0, len(big))
             if lay and lay[-1][1] < P0.k_of_rate(P0.r1):
                 tree = {"a1.bin": big, "a2.bin": big[lay[-1][0]:]}
+        if i % 3 == 0:
+            # directed: many sibling sub-directories, created in a scrambled order (the raw listing order of a directory depends on the file
+            # system and on the creation history: only the sorted walk makes the entry order a function of the tree)
+            sibs = ["d%02d" % j_ for j_ in range(rng.randint(5, 9))] + ["Zeta", "alpha", "_u"]
+            rng.shuffle(sibs)
+            for sd in sibs[:rng.randint(4, len(sibs))]:
+                tree["%s/f.bin" % sd] = bytes(rng.randrange(256) for _ in range(rng.choice([0, 3, 60])))
+                if rng.random() < 0.3:
+                    tree["%s/in/g" % sd] = bytes(rng.randrange(256) for _ in range(5))
+            oc.count("directed: many sibling sub-directories (entry order = sorted walk)")
         roots = {"orig": os.path.join(d, "t"), "moved": os.path.join(d, "a much longer directory name", "t_moved"), "touched": os.path.join(d, "u")}
+        if i % 3 == 1:
+            # directed: the tree holds a mirror of its own absolute location (backups of backups): the recorded paths must still be the
+            # paths relative to the root, wherever the tree is mounted
+            mirror = "mirror" + roots["orig"] + "/readme.txt"
+            tree[mirror] = b"mirrored " + bytes(rng.randrange(256) for _ in range(9))
+            oc.count("directed: tree holding a mirror of its own absolute path")
         for r in roots.values():
             eu.write_tree(r, tree)
         # the same tree reached through a symbolic link in the path (a relocation as far as the tool can tell)
@@ -122,6 +138,28 @@ def run(oc, tier, seed, model_available, escalate):
                 raw_idx[(algo, rn)] = raw
                 idxs[(algo, rn)] = idx_records(raw, off)
         oc.oracle_cases += 1
+        # the entries of the ecc file are the files of the tree in the order of the sorted walk (files of a directory in code-point order,
+        # then its sub-directories in code-point order, depth first), under their relative posix paths - whatever the root
+        def sorted_walk(prefix, names):
+            files = sorted(n_ for n_ in names if "/" not in n_)
+            subs = sorted(set(n_.split("/", 1)[0] for n_ in names if "/" in n_))
+            out_ = [prefix + f_ for f_ in files]
+            for sd_ in subs:
+                out_ += sorted_walk(prefix + sd_ + "/", [n_.split("/", 1)[1] for n_ in names if n_.startswith(sd_ + "/")])
+            return out_
+        want_order = sorted_walk("", list(tree))
+        for key_, body_ in sorted(bodies.items()):
+            if eu.accidental(body_, len(tree)):
+                continue        # (a parity spelling a marker or delimiter: the format's documented limit, the entries cannot be told apart)
+            try:
+                got_order = [eu.parse_entry(body_, s_, e_)["relpath"].decode("latin-1") for (s_, e_) in eu.entry_bounds(body_)]
+            except Exception:
+                got_order = None
+            if got_order != want_order:
+                oc.violations.append({"input": {"params": P0.describe(), "tree": {p: c.hex()[:40] for p, c in tree.items()}, "codec": key_[0], "root": roots[key_[1]]},
+                                      "impl": {"recorded_paths_in_order": got_order}, "required": {"recorded_paths_in_order": want_order},
+                                      "what": "the entries of the generated ecc file are not the files of the tree under their relative paths in sorted-walk order"})
+                break
         if len(set(bodies.values())) > 1:
             diff = sorted(k_ for k_, v in bodies.items() if v != bodies[(3, "orig")])
             oc.violations.append({"input": {"params": P0.describe(), "tree": {p: c.hex()[:80] for p, c in tree.items()}},
